@@ -750,8 +750,9 @@ Definition eval_case (kind : Z) (ins : list (list Z)) : list (list Z) :=
            | Some es => flat_map (fun i => ser_slice (get_glyf_slice es long glyf i)) (zseq (length loca))
            end]
       end
-  | 6, [lens; xs; ys; ons; [hb]] =>                     (* skrifa unscaled draw, pen stream in half units *)
-      match to_path (negb (hb =? 0)) (half_unit_points xs ys ons) (ends_of_lens 0 lens) with
+  | 6, [lens; xs; ys; ons; [hb]; [shift]] =>            (* skrifa unscaled draw, pen stream in half units *)
+      (* ScaledOutline::new: every x is translated by phantom[0].x = xMin - lsb (= shift) *)
+      match to_path (negb (hb =? 0)) (half_unit_points (map (fun x => x - shift) xs) ys ons) (ends_of_lens 0 lens) with
       | None => [[-1]]
       | Some cmds => [flat_map ser_pcmd cmds]
       end
